@@ -55,7 +55,7 @@ func NewNativeFormat(schema physical.Schema) *NativeFormat {
 }
 
 func (n *NativeFormat) WriteRecord(record Record) error {
-	fmt.Fprintf(os.Stdout, record.String()+"\n")
+	fmt.Fprintln(os.Stdout, record.String())
 	return nil
 }
 
